@@ -519,6 +519,9 @@ def query_order(repo, rep):
 
 
 def run(repo, rep, tier):
+    rep.rule("R-C14-10", "the longitude-convention branch of the selectors is chosen from the DATASET's longitudes (`_is_360(dset_lons)`), not from the query")
+    from .round7b import is360_on_dataset
+    is360_on_dataset(repo, rep, "R-C14-10")
     from .round7b import hygiene
     hygiene(repo, rep, "C14", ('wavespectra.core.select', 'wavespectra.specdataset'), falsy=True)
     rep.rule("R-C14-8", "every parameter of the functions behind this property is read (site selection): none is accepted and then ignored, and no control parameter (cutoff, limit, tolerance, window, count, switch) is replaced by another value before use (coercion and default filling aside)")
